@@ -151,7 +151,7 @@ def scan(ctx, site, tr, order, cell_label="", allowed_extra=()):
                 reason = None
                 for f in e.stack:
                     reason = reason or ALLOWED.get((f.qualname, "*"))
-                if reason is None and e.func.qualname == "NNSpacePartitioner.build" and a[0] == "sub":
+                if reason is None and any(f.qualname == "NNSpacePartitioner.build" for f in e.stack) and a[0] == "sub":
                     # only the split at len(sample1) / its complement
                     i = a[2].single_atom()
                     n1 = atom(("call", "len", (P("sample1"),), ()))
